@@ -197,20 +197,6 @@ theorem inv_preserved (env : Env) (s : Screen) (c : Call) (x y : Nat) (h : Inv s
 
 /-! #### the CSI finals reach these operations with first = row, second = column -/
 
-theorem dispatch_CUU (ps : List Nat) (p : Bool) : csiDispatch 65 ps p = [.cursorUp ps[0]?] := by rfl
-theorem dispatch_CUD (ps : List Nat) (p : Bool) : csiDispatch 66 ps p = [.cursorDown ps[0]?] := by rfl
-theorem dispatch_CUF (ps : List Nat) (p : Bool) : csiDispatch 67 ps p = [.cursorForward ps[0]?] := by rfl
-theorem dispatch_CUB (ps : List Nat) (p : Bool) : csiDispatch 68 ps p = [.cursorBack ps[0]?] := by rfl
-theorem dispatch_CNL (ps : List Nat) (p : Bool) : csiDispatch 69 ps p = [.cursorDown1 ps[0]?] := by rfl
-theorem dispatch_CPL (ps : List Nat) (p : Bool) : csiDispatch 70 ps p = [.cursorUp1 ps[0]?] := by rfl
-theorem dispatch_CHA (ps : List Nat) (p : Bool) : csiDispatch 71 ps p = [.cursorToColumn ps[0]?] := by rfl
-theorem dispatch_CUP (ps : List Nat) (p : Bool) : csiDispatch 72 ps p = [.cursorPosition ps[0]? ps[1]?] := by rfl
-theorem dispatch_HPR (ps : List Nat) (p : Bool) : csiDispatch 97 ps p = [.cursorForward ps[0]?] := by rfl
-theorem dispatch_VPA (ps : List Nat) (p : Bool) : csiDispatch 100 ps p = [.cursorToLine ps[0]?] := by rfl
-theorem dispatch_VPR (ps : List Nat) (p : Bool) : csiDispatch 101 ps p = [.cursorDown ps[0]?] := by rfl
-theorem dispatch_HVP (ps : List Nat) (p : Bool) : csiDispatch 102 ps p = [.cursorPosition ps[0]? ps[1]?] := by rfl
-theorem dispatch_BS : basicDispatch 8 = [.backspace] := by rfl
-theorem dispatch_CR : basicDispatch 13 = [.cariageReturn] := by rfl
 
 /-! #### non-vacuity: a concrete well-formed state with a region, origin mode and a
     pending-wrap cursor, on which the closed forms are evaluated -/
